@@ -302,6 +302,34 @@ impl<'a> Read for OverReportReader<'a> {
     }
 }
 
+/// A reader written in safe code that treats the buffer it is handed as initialised memory, which a
+/// `&mut [u8]` always is: it may look at the buffer's old contents before filling it (`inspect`), and
+/// it may report n bytes while having stored only n-1 of them (`skip_last`: a contract slip that is
+/// harmless as long as the buffer really is initialised - the consumer then sees a stale byte).
+pub struct LazyReader<'a> {
+    pub data: &'a [u8],
+    pub pos: usize,
+    pub max_read: usize,
+    pub inspect: bool,
+    pub skip_last: bool,
+    pub checksum: u64,
+}
+
+impl<'a> Read for LazyReader<'a> {
+    fn read(&mut self, buf: &mut [u8]) -> io::Result<usize> {
+        if self.inspect {
+            for b in buf.iter() {
+                self.checksum = self.checksum.wrapping_mul(31).wrapping_add(*b as u64);
+            }
+        }
+        let n = buf.len().min(self.max_read.max(1)).min(self.data.len() - self.pos);
+        let stored = if self.skip_last && n >= 2 { n - 1 } else { n };
+        buf[..stored].copy_from_slice(&self.data[self.pos..self.pos + stored]);
+        self.pos += n;
+        Ok(n)
+    }
+}
+
 /// A reader with a hostile life cycle: it can panic inside `read` on a chosen
 /// call, and it can panic in its destructor (only when no panic is already in
 /// flight, so that the process never aborts on a double panic). Reads are
